@@ -114,9 +114,11 @@ impl Tree {
                 continue;
             }
             let Some(target) = f.target.clone() else { continue };
-            if let Some(desc) = apply_one(&self.root, f, &target) {
+            let mut created = Vec::new();
+            if let Some(desc) = apply_one(&self.root, f, &target, &mut created) {
                 applied.push(desc);
             }
+            self.touched.append(&mut created);
             self.touched.push(target.clone());
             if f.kind == "src-cycle" && target.ends_with(".glif") {
                 // closing a two-glyph cycle edits a sibling file too
@@ -179,7 +181,7 @@ fn find_numbers(text: &[u8]) -> Vec<(usize, usize)> {
     out
 }
 
-fn apply_one(root: &Path, f: &Fault, target: &str) -> Option<String> {
+fn apply_one(root: &Path, f: &Fault, target: &str, created: &mut Vec<String>) -> Option<String> {
     let path = root.join(target);
     let mut rng = Prng::new(f.arg as u64);
     match f.kind.as_str() {
@@ -193,6 +195,20 @@ fn apply_one(root: &Path, f: &Fault, target: &str) -> Option<String> {
         }
         _ => {}
     }
+    // include faults go to the feature file of the UFO the target belongs to, creating it if needed
+    let (path, target): (PathBuf, String) = if f.kind == "src-include" && !(target.ends_with(".fea") || target.ends_with(".glyphs")) {
+        let ufo = Path::new(target).ancestors().find(|a| a.extension().and_then(|e| e.to_str()) == Some("ufo"))?;
+        let rel = format!("{}/features.fea", ufo.to_string_lossy());
+        let p = root.join(&rel);
+        if !p.exists() {
+            fs::write(&p, b"").ok()?;
+        }
+        created.push(rel.clone());
+        (p, rel)
+    } else {
+        (path, target.to_string())
+    };
+    let target = target.as_str();
     let data = fs::read(&path).ok()?;
     let (new, desc): (Vec<u8>, String) = match f.kind.as_str() {
         "src-truncate" => {
@@ -361,6 +377,52 @@ fn apply_one(root: &Path, f: &Fault, target: &str) -> Option<String> {
                 (new.into_bytes(), format!("component ref at {at} of {target} now points at its own glyph {name}"))
             }
         }
+        "src-include" => {
+            // grow the include graph: a new file next to the target that includes itself, a
+            // partner, a long chain, something missing, or the root again
+            let text = String::from_utf8_lossy(&data).to_string();
+            let dir_rel = Path::new(target).parent().map(|p| p.to_string_lossy().to_string()).unwrap_or_default();
+            let dir = path.parent()?;
+            let mut new_file = |name: &str, body: String| {
+                let _ = fs::write(dir.join(name), body);
+                created.push(if dir_rel.is_empty() { name.to_string() } else { format!("{dir_rel}/{name}") });
+            };
+            let own = path.file_name()?.to_string_lossy().to_string();
+            let (stmt, what): (String, String) = match rng.below(7) {
+                0 => {
+                    new_file("verif_inc.fea", "include(verif_inc.fea);\n".into());
+                    ("include(verif_inc.fea);".into(), "an included file that includes itself".into())
+                }
+                1 => {
+                    new_file("verif_inc_a.fea", "include(verif_inc_b.fea);\n".into());
+                    new_file("verif_inc_b.fea", "include(verif_inc_a.fea);\n".into());
+                    ("include(verif_inc_a.fea);".into(), "two included files that include each other".into())
+                }
+                2 => {
+                    let n = *rng.pick(&[10usize, 60, 300]);
+                    for i in 0..n {
+                        let body = if i + 1 < n { format!("include(verif_chain_{}.fea);\n", i + 1) } else { "# end\n".to_string() };
+                        new_file(&format!("verif_chain_{i}.fea"), body);
+                    }
+                    ("include(verif_chain_0.fea);".into(), format!("a chain of {n} includes"))
+                }
+                3 => ("include(verif_missing.fea);".into(), "an include of a file that does not exist".into()),
+                4 => (format!("include({own});"), "the root feature file includes itself".into()),
+                5 => {
+                    new_file("verif_inc.fea", format!("include(../{}/verif_inc.fea);\n", dir.file_name().map(|d| d.to_string_lossy().to_string()).unwrap_or_default()));
+                    ("include(verif_inc.fea);".into(), "an included file that includes itself through a different spelling of its path".into())
+                }
+                _ => ("include(.);".into(), "an include of a directory".into()),
+            };
+            let new = if target.ends_with(".glyphs") {
+                // feature code lives in strings inside the Glyphs file
+                let at = text.find("code = \"")? + "code = \"".len();
+                format!("{}{}\n{}", &text[..at], stmt, &text[at..])
+            } else {
+                format!("{stmt}\n{text}")
+            };
+            (new.into_bytes(), format!("{what} ({stmt} added to {target})"))
+        }
         _ => return None,
     };
     fs::write(&path, new).ok()?;
@@ -392,4 +454,5 @@ pub const BYTE_FAULT_KINDS: &[&str] = &[
     "src-cycle",
     "src-nest",
     "src-soup",
+    "src-include",
 ];
